@@ -1102,17 +1102,17 @@ class UnionSuite(Suite):
                'pub fn bytes(x: &T) -> &[u8] { unsafe { ::core::slice::from_raw_parts(x as *const T as *const u8, %s) } }' % size_expr]
         checks = []
         if 'PartialEq' in traits:
-            checks.append('for p in 0..6u8 { for q in 0..6u8 { let a = mk(p); let b = mk(q); let e = bytes(&a) == bytes(&b); out.check((a == b) == e, "%s", "union_eq", || format!("{:?} == {:?} expected {}", bytes(&a), bytes(&b), e)); } }' % tid)
+            checks.append('for p in [0u8, 1, 2, 3, 0x7f, 0x80, 0xc3, 0xff] { for q in [0u8, 1, 2, 3, 0x7f, 0x80, 0xc3, 0xff] { let a = mk(p); let b = mk(q); let e = bytes(&a) == bytes(&b); out.check((a == b) == e, "%s", "union_eq", || format!("{:?} == {:?} expected {}", bytes(&a), bytes(&b), e)); } }' % tid)
             checks.append('{ let a = mk(3); let mut b = mk(3); unsafe { let p = &mut b as *mut T as *mut u8; let n = %s; *p.add(n - 1) ^= 0x55; } out.check(a != b, "%s", "union_eq_last_byte", || format!("values differing in their last byte compare equal")); }' % (size_expr, tid))
         if 'Hash' in traits:
-            checks.append('for p in 0..6u8 { let a = mk(p); let mut g = Rec::default(); ::core::hash::Hash::hash(&a, &mut g); let mut e = Rec::default(); ::core::hash::Hash::hash(bytes(&a), &mut e); out.check(g.0 == e.0, "%s", "union_hash", || format!("hash fed {:?} expected {:?}", g.0, e.0)); }' % tid)
+            checks.append('for p in [0u8, 1, 2, 3, 5, 0x7f, 0x80, 0xc3, 0xff] { let a = mk(p); let mut g = Rec::default(); ::core::hash::Hash::hash(&a, &mut g); let mut e = Rec::default(); ::core::hash::Hash::hash(bytes(&a), &mut e); out.check(g.0 == e.0, "%s", "union_hash", || format!("hash fed {:?} expected {:?}", g.0, e.0)); }' % tid)
         if 'Debug' in traits:
             exp = 'format!("{:?}", Fm(|f: &mut ::core::fmt::Formatter<\'_>| f.debug_tuple("%s").field(&bytes(&a)).finish()))' % name if name else 'format!("{:?}", bytes(&a))'
             expa = exp.replace('{:?}', '{:#?}', 1)
-            checks.append('for p in 0..6u8 { let a = mk(p); let g = format!("{:?}", a); let e = %s; out.check(g == e, "%s", "union_debug", || format!("{{:?}} = {:?} expected {:?}", g, e));'
+            checks.append('for p in [0u8, 1, 2, 3, 5, 0x7f, 0x80, 0xc3, 0xff] { let a = mk(p); let g = format!("{:?}", a); let e = %s; out.check(g == e, "%s", "union_debug", || format!("{{:?}} = {:?} expected {:?}", g, e));'
                           ' let g = format!("{:#?}", a); let e = %s; out.check(g == e, "%s", "union_debug_alt", || format!("{{:#?}} = {:?} expected {:?}", g, e)); }' % (exp, tid, expa, tid))
         if 'Clone' in traits:
-            checks.append('for p in 0..6u8 { let a = mk(p); let b = ::core::clone::Clone::clone(&a); out.check(bytes(&a) == bytes(&b), "%s", "union_clone", || format!("clone {:?} of {:?}", bytes(&b), bytes(&a))); }' % tid)
+            checks.append('for p in [0u8, 1, 2, 3, 5, 0x7f, 0x80, 0xc3, 0xff] { let a = mk(p); let b = ::core::clone::Clone::clone(&a); out.check(bytes(&a) == bytes(&b), "%s", "union_clone", || format!("clone {:?} of {:?}", bytes(&b), bytes(&a))); }' % tid)
         if 'Default' in traits:
             f = fs[dfield]
             checks.append('{ let d = <T as ::core::default::Default>::default(); let e = T { %s: %s }; let n = ::core::mem::size_of::<%s>();'
